@@ -18,7 +18,7 @@ from sa.cfg import NORMAL, describe_path
 from sa.report import Report
 from sa.effects import Effects
 from sa.sides import SideAnalysis, show, MUTATING_API
-from sa.util import cfg_root, node_has_call, node_contains, has_fact, node_stores_attr
+from sa.util import cfg_root, node_has_call, node_contains, has_fact, node_stores_attr, fact_binds, fact_in, local_assigned_from
 from sa import pat
 
 
@@ -127,7 +127,7 @@ class C12:
         """None: the value does not come from translate.  (True/False, explanation) otherwise."""
         ctx = self.ctx
         facts = ctx.facts_at(f, at)
-        tested = (name, True) in facts or ("%s is None" % name, False) in facts
+        tested = (name, True) in facts or fact_in(facts, "%s is None" % name, False)
         d = self.sa.single_def(f, name)
         if d is not None and isinstance(d, ast.Call) and isinstance(d.func, ast.Attribute) and d.func.attr == "translate":
             return (tested, "`%s` = %s, %s at %s" % (name, ast.unparse(d), "tested" if tested else "NOT tested", ctx.line(f, at)))
@@ -165,9 +165,12 @@ class C12:
         f = ctx.prog.func("SyncManager.embrace_change")
         g = ctx.cfg(f)
         sync, changed, synced = f.params()[1:4]
-        tests = [n for n in g.nodes if n.kind == "test" and pat.match("not translated_path", n.ast) is not None]
+        tpn = local_assigned_from(ctx, f, "self.translate($$$)")
+        if tpn is None:
+            raise AnalysisError("embrace_change: the result of translate() is not bound to a single local")
+        tests = [n for n in g.nodes if n.kind == "test" and pat.match("not %s" % tpn, n.ast) is not None]
         if len(tests) != 1:
-            raise AnalysisError("embrace_change: test `not translated_path` not found")
+            raise AnalysisError("embrace_change: test `not <translated path>` not found")
         t = tests[0]
         starts = [b for (b, l) in g.succ[t.id] if l == "T"]
         dels = [c for c in ctx.calls(f, "delete_synced") if any(pat.match("IgnoreReason.IRRELEVANT", a) is not None for a in c.args)]
@@ -177,7 +180,7 @@ class C12:
             facts = ctx.facts_at(f, c)
             g1 = has_fact(facts, "%s[%s].sync_path" % (sync, changed), True)
             g2 = has_fact(facts, "self.providers[%s].is_subpath_of_root(%s[%s].path)" % (changed, sync, changed), False)
-            g0 = ("translated_path", False) in facts
+            g0 = fact_in(facts, tpn, False)
             rep.check("C12.Y4", "embrace_change|move-out-delete", ctx.line(f, c), g0 and g1 and g2,
                       "peer delete only for: not translated, synced before, outside the provider's root",
                       "the peer of a path that merely does not translate is deleted (needs: no translation %s, was synced %s, left the root %s): objects "
@@ -229,10 +232,13 @@ class C12:
             if isinstance(v, ast.IfExp) and isinstance(v.body, ast.Constant) and v.body.value is False:
                 facts = set(facts) | {(ast.unparse(v.test), False)}
             n_rel += 1
-            equal = any(pol and isinstance(e := _parse(txt), ast.Compare) and isinstance(e.ops[0], ast.Eq) and "folder" in txt and "target" in txt and "[" not in txt for (txt, pol) in facts)
-            is_root = any(pol and "== self.sep" in txt and "folder" in txt and "[" not in txt.split("==")[0] for (txt, pol) in facts)
-            boundary = any(pol and ((("[len(" in txt) and "== self.sep" in txt and "target" in txt) or ("startswith(" in txt and "+ self.sep" in txt)) for (txt, pol) in facts)
-            prefix = any(pol and "startswith(" in txt for (txt, pol) in facts)
+            def whole(e):      # a whole path operand: a plain name (possibly the folded twin), not a slice / index
+                return isinstance(e, ast.Name)
+            equal = any(whole(m["A"]) and whole(m["B"]) and {"folder", "target"} <= {w for x in (m["A"].id, m["B"].id) for w in ("folder", "target") if w in x}
+                        for m in fact_binds(facts, "$A == $B", True))
+            is_root = any((whole(m["A"]) and "folder" in m["A"].id) for m in fact_binds(facts, "$A == self.sep", True))
+            boundary = bool(fact_binds(facts, "$T[len($F)] == self.sep", True)) or bool(fact_binds(facts, "$T.startswith($F + self.sep)", True))
+            prefix = bool(fact_binds(facts, "$T.startswith($F)", True)) or bool(fact_binds(facts, "$T.startswith($F + self.sep)", True))
             good = equal or is_root or (boundary and prefix)
             rep.check("C12.Y5", "is_subpath|return %s" % ast.unparse(v)[:40], ctx.line(f, r), good,
                       "guarded by %s" % ("equality" if equal else "root folder" if is_root else "boundary + prefix"),
@@ -280,7 +286,8 @@ class C12:
             raise AnalysisError("check_revivify: store to %s.ignored not found" % sync)
         for s in stores:
             facts = ctx.facts(f).facts(s)
-            good = ("%s.is_irrelevant" % sync, True) in facts and ("translated_path", True) in facts
+            tpn = local_assigned_from(ctx, f, "self.translate($$$)") or "?"
+            good = fact_in(facts, "%s.is_irrelevant" % sync, True) and fact_in(facts, tpn, True)
             rep.check("C12.Y7", "check_revivify|guard", ctx.line(f, s.ast), good, "under is_irrelevant and a translating path",
                       "an ignored entry is revived without checking that it is IRRELEVANT and that its current path translates (facts: %s)" % sorted(facts))
             clr = [n for n in g.nodes if node_has_call(n, "%s[$S].clear()" % sync)]
